@@ -70,7 +70,7 @@ func C10(c *Ctx) int {
 		}
 		var hs []Harness
 		if it.Grammar != nil {
-			sizes := [][2]int{{1, 1}, {2, 2}, {2, 3}}
+			sizes := [][2]int{{1, 1}, {2, 2}, {2, 3}, {1, 33}, {2, 40}}
 			if c.Thorough() {
 				sizes = append(sizes, [2]int{3, 4})
 			}
